@@ -17,6 +17,11 @@
 //! A fourth family runs the real `okane` binary (every sub-command that loads a ledger) and judges its stderr: the
 //! only observation point that executes `main`, which decides how much of the error chain is printed.
 //!
+//! An eighth family (adjacency) puts the bad entry DIRECTLY, without a blank line, before / after every kind of
+//! top-level entry of doc/syntax.md (top comment with each comment prefix, account / commodity declaration, apply tag,
+//! end apply tag, include, transaction), with every kind of last line of the bad entry itself (for declarations:
+//! alias / note / format / comment line with each of the 5 comment prefixes): a neighbour is another entry.
+//!
 //!  F  the diagnostic names the bad file (` --> path:l:c` / `failed to parse file path`), and NO location header
 //!     names the root, a sibling or an intermediate file (a second, contradicting header is a violation);
 //!  L  every line number it shows (gutter numbers and `l` of `-->`) is >= the first line of the bad entry, and
@@ -34,11 +39,12 @@ pub const DEF: CheckDef = CheckDef {
     id: "C14",
     run,
     technique: "bounded-exhaustive enumeration of (prefix context x fault x include location) with generator-computed first/last/fault line of the one invalid entry in original-file numbering; the rendered error chain of the real loader/parser/book-keeper (FakeFileSystem in-process, and the in-process CLI on real files for a fixed subset) is parsed (named path, `-->` line, gutter numbers, snippet text) and compared with the generator's numbers and with the original file's lines",
-    rule: "case = (context, fault, location, fs). Context = 8 slots with a default each (leading blank lines 0-3; blank lines between preceding content and the bad entry 1/0/2/3; LF/CRLF; preceding content none/comment block/transaction/two transactions/directives/mix; multi-byte marker none/2-/3-/4-byte UTF-8 in preceding payees, comments, account names and inside the bad entry before the fault; following content none/transaction/transaction+comment; blank lines after the bad entry 1/0/2; final newline present/absent): all contexts with <= 2 non-default slots (thorough: ALL contexts, i.e. the full product of the 8 slots). Fault = every entry of the fault table (syntactic: bad date, bad effective date, unknown directive, malformed number / unclosed parenthesis / duplicated lot price / dangling @ / dangling = / bad lot date / trailing garbage on posting k=1..3, unindented posting, bare include, bad sub-line of account/commodity, malformed apply tag / end; semantic: unbalanced, false assertion on posting j, two omitted postings, zero rate, zero total, same-commodity cost/lot, zero lot, zero amount with cost, expression errors, `= 0` on a multi-commodity account, account/commodity alias conflicts). Location = root, or literal/glob include at depth 1/2 below a root with a short or long preamble (and, for faults needing an earlier declaration, that declaration in the bad file or in the root). Include-before-entry family: in the file of the bad entry (root or included) an `include` line precedes the entry, its target being an empty / newline-only / whitespace-only / comment-only / valid file or a glob matching blank files among valid ones (7 kinds) x all faults x contexts with <= 1 (thorough <= 2) non-default slots  x root + 4 include shapes (thorough: all locations). Binary family: the real hooks-off `okane` binary (stderr = the diagnostic) for balance, register, primitive eval (+ accounts, primitive flatten for syntax faults) x all faults x default context (thorough <= 1 non-default slot) x root + 4 include shapes (+ after an include of an empty file). Long-entry family: transactions of 2, 5, 10, 11, 12, 30 lines with the fault (false assertion, zero rate, same-commodity cost, second omitted posting, dangling @, unclosed parenthesis) on EVERY posting line incl. the last x contexts with <= 1 (thorough <= 2) non-default slots x root / literal depth 1 / glob depth 2 (thorough: all locations), plus the real binary for faults on entry line 11 and on the last line. Entry-end family (full product, no deviation bound): last line of the entry = posting / posting with inline note / `;` comment line / tag line / key-value line / comment or note line of a directive x followed by 0-3 empty lines or one whitespace-only line and then the next entry or the end of the file (also EOF without final newline) x all semantic faults and the syntactic ones not on the last line x LF/CRLF x root / literal depth 1 / glob depth 2 (thorough: all locations and markers). Scale family: the entry starts at line 255, 256, 257, 32767, 32768, 65535, 65536, 65537, 100000, 131073 of its file after that many blank lines / comment lines / valid transactions x {false assertion on posting 2, unbalanced, dangling @} x root and included file (LF), plus the real binary beyond line 65535. Per-posting syntax faults include unclosed `(` lot note, `{`, `{{`, `[` and stray closers, and all following content carries `( ) @ { } [ ] \"`. states = cases executed, transitions = line numbers + snippet lines compared",
+    rule: "case = (context, fault, location, fs). Context = 8 slots with a default each (leading blank lines 0-3; blank lines between preceding content and the bad entry 1/0/2/3; LF/CRLF; preceding content none/comment block/transaction/two transactions/directives/mix; multi-byte marker none/2-/3-/4-byte UTF-8 in preceding payees, comments, account names and inside the bad entry before the fault; following content none/transaction/transaction+comment; blank lines after the bad entry 1/0/2; final newline present/absent): all contexts with <= 2 non-default slots (thorough: ALL contexts, i.e. the full product of the 8 slots). Fault = every entry of the fault table (syntactic: bad date, bad effective date, unknown directive, malformed number / unclosed parenthesis / duplicated lot price / dangling @ / dangling = / bad lot date / trailing garbage on posting k=1..3, unindented posting, bare include, bad sub-line of account/commodity, malformed apply tag / end; semantic: unbalanced, false assertion on posting j, two omitted postings, zero rate, zero total, same-commodity cost/lot, zero lot, zero amount with cost, expression errors, `= 0` on a multi-commodity account, account/commodity alias conflicts). Location = root, or literal/glob include at depth 1/2 below a root with a short or long preamble (and, for faults needing an earlier declaration, that declaration in the bad file or in the root). Include-before-entry family: in the file of the bad entry (root or included) an `include` line precedes the entry, its target being an empty / newline-only / whitespace-only / comment-only / valid file or a glob matching blank files among valid ones (7 kinds) x all faults x contexts with <= 1 (thorough <= 2) non-default slots  x root + 4 include shapes (thorough: all locations). Binary family: the real hooks-off `okane` binary (stderr = the diagnostic) for balance, register, primitive eval (+ accounts, primitive flatten for syntax faults) x all faults x default context (thorough <= 1 non-default slot) x root + 4 include shapes (+ after an include of an empty file). Long-entry family: transactions of 2, 5, 10, 11, 12, 30 lines with the fault (false assertion, zero rate, same-commodity cost, second omitted posting, dangling @, unclosed parenthesis) on EVERY posting line incl. the last x contexts with <= 1 (thorough <= 2) non-default slots x root / literal depth 1 / glob depth 2 (thorough: all locations), plus the real binary for faults on entry line 11 and on the last line. Entry-end family (full product, no deviation bound): last line of the entry = posting / posting with inline note / `;` comment line / tag line / key-value line / comment or note line of a directive x followed by 0-3 empty lines or one whitespace-only line and then the next entry or the end of the file (also EOF without final newline) x all semantic faults and the syntactic ones not on the last line x LF/CRLF x root / literal depth 1 / glob depth 2 (thorough: all locations and markers). Scale family: the entry starts at line 255, 256, 257, 32767, 32768, 65535, 65536, 65537, 100000, 131073 of its file after that many blank lines / comment lines / valid transactions x {false assertion on posting 2, unbalanced, dangling @} x root and included file (LF), plus the real binary beyond line 65535. Adjacency family: the entry stands directly (0 blank lines) after / before each of 20 neighbour entries = every kind of top-level entry of doc/syntax.md (top comment with prefix ; # % | *, 3-line comment block with mixed prefixes, account bare / ending with alias / comment / note, commodity bare / ending with format / comment, apply tag, end apply tag, include of a valid file, transaction ending with a posting / comment line / inline note, header-only transaction): (a) neighbour after x every last-line kind of the entry (transactions: posting / inline note / comment / tag / key-value line; declarations: as generated / note / format / comment line with each of the 5 comment prefixes / two comment lines) x all semantic faults and the syntactic ones not on the last line, (b) neighbour before x all faults, (c, thorough) neighbour before x neighbour after; x LF/CRLF x root / literal depth 1 / glob depth 2 (thorough: all locations and markers), plus the real binary (unbalanced transaction x every neighbour; rejected declarations x every last-line kind x every top-comment kind). Per-posting syntax faults include unclosed `(` lot note, `{`, `{{`, `[` and stray closers, and all following content carries `( ) @ { } [ ] \"`. states = cases executed, transitions = line numbers + snippet lines compared",
     assumptions: &[
         "the generator's own line arithmetic (positions in a Vec of lines) is the reference; every line of a generated file is textually distinct from its neighbours, so a snippet line identifies its line number",
         "for a syntax error the allowed range is [first line of the entry, fault line]; a number after the fault line but inside the entry (or the blank line / end of file directly after it) is DON'T-CARE because the statement does not pin where a parser may stop; a number before the entry or inside another entry is a violation",
         "column numbers, message wording and the choice of annotated sub-spans are not judged",
+        "the extent of an entry is that of doc/syntax.md: detail lines of an account / commodity declaration and metadata lines of a transaction are indented (`sp+`), so a comment line in column 0 directly after an entry is a top-level comment, i.e. another entry (also core/src/parse/metadata.rs test block_metadata_stops_at_top_level_comment), and no line of a neighbouring entry may be shown even when no blank line separates them",
         "title of the property (\"name the right file and line\"): a rejection whose diagnostic shows no line number at all (no gutter, no `-->`) is a violation; a binary that ends with a status other than 0/1 (panic, signal) while rendering is a crash violation",
         "every location header (` --> p:l:c`, `failed to parse file p`, any `p:<digit>` of a loaded file) must name the file holding the offending line, also when the right file is named elsewhere in the same diagnostic; a bare mention of another loaded file outside a location header is DON'T-CARE",
         "the binary's stderr cannot be classified by phase (parse / book-keeping) without trusting its text, so the phase cross-check is skipped there; exit status 1 = rejected, 0 = accepted, anything else is reported as a crash",
@@ -515,13 +521,27 @@ fn trails() -> Vec<Trail> {
 }
 
 /// The same fault with another kind of LAST line of the entry (None where the kind does not apply).
-const NTAILS: u8 = 6;
+const NTAILS: u8 = 12;
 fn tail_name(t: u8) -> &'static str {
-    ["as-generated", "inline-note-on-the-last-posting", "comment-line", "tag-line", "key-value-line", "note-line-of-a-directive"][t as usize]
+    [
+        "as-generated",
+        "inline-note-on-the-last-posting",
+        "comment-line",
+        "tag-line",
+        "key-value-line",
+        "note-line-of-a-directive",
+        "hash-comment-line-of-a-directive",
+        "percent-comment-line-of-a-directive",
+        "bar-comment-line-of-a-directive",
+        "star-comment-line-of-a-directive",
+        "format-line-of-a-commodity-directive",
+        "two-comment-lines-of-a-directive",
+    ][t as usize]
 }
 fn tailed(f: &Fault, tail: u8, m: &str) -> Option<Fault> {
     let is_txn = f.lines[0].chars().next().map(|c| c.is_ascii_digit()).unwrap_or(false);
-    let is_directive = f.lines[0].starts_with("account ") || f.lines[0].starts_with("commodity ");
+    let commodity = f.lines[0].strip_prefix("commodity ").map(|c| c.trim().to_string());
+    let is_directive = f.lines[0].starts_with("account ") || commodity.is_some();
     let mut g = f.clone();
     match tail {
         0 => {}
@@ -534,10 +554,94 @@ fn tailed(f: &Fault, tail: u8, m: &str) -> Option<Fault> {
         3 if is_txn => g.lines.push("    ; :tagA:tagB:".to_string()),
         4 if is_txn => g.lines.push(format!("    ; Payee: Somebody {m}")),
         5 if is_directive => g.lines.push(format!("  note trailing {m}")),
+        // every comment prefix of doc/syntax.md (`comment-prefix ::= [;#%|*]`) as the last detail line of a directive
+        6 if is_directive => g.lines.push(format!("  # trailing remark {m}")),
+        7 if is_directive => g.lines.push(format!("  % trailing remark {m}")),
+        8 if is_directive => g.lines.push(format!("  | trailing remark {m}")),
+        9 if is_directive => g.lines.push(format!("  * trailing remark {m}")),
+        10 if commodity.is_some() => g.lines.push(format!("  format 1,000.00 {}", commodity.unwrap())),
+        11 if is_directive => {
+            g.lines.push(format!("  ; trailing remark one {m}"));
+            g.lines.push(format!("    #% trailing remark two {m}"));
+        }
         _ => return None,
     }
     g.name = format!("{}/last-line={}", f.name, tail_name(tail));
     Some(g)
+}
+
+/// Neighbour entries (adjacency family): every kind of top-level entry of doc/syntax.md (`directive ::= transaction |
+/// top-comment | account-declaration | commodity-declaration | apply-tag | end-apply-tag | include`), each with every
+/// kind of last line it can have, to stand DIRECTLY (no blank line) before or after the bad entry. `side` = "pv"
+/// (before) / "nx" (after) keeps the texts of the two sides distinct.
+struct Neighbour {
+    name: &'static str,
+    lines: Vec<String>,
+    /// files it includes: (path relative to the directory of the bad file, content)
+    extra: Vec<(String, String)>,
+}
+
+fn neighbours(side: &str, m: &str) -> Vec<Neighbour> {
+    let cap = if side == "pv" { "Pv" } else { "Nx" };
+    let up = if side == "pv" { "PV" } else { "NX" };
+    let n = |name: &'static str, lines: Vec<String>| Neighbour { name, lines, extra: vec![] };
+    let mut out = vec![
+        n("top-comment-semicolon", vec![format!("; {side} semicolon comment {m}")]),
+        n("top-comment-hash", vec![format!("# {side} hash comment {m}")]),
+        n("top-comment-percent", vec![format!("% {side} percent comment {m}")]),
+        n("top-comment-bar", vec![format!("| {side} bar comment {m}")]),
+        n("top-comment-star", vec![format!("* {side} star comment {m}")]),
+        n("top-comment-block-of-3-mixed-prefixes", vec![format!(";; {side} block one {m}"), format!("#% {side} block two {m}"), format!("*| {side} block three")]),
+        n("account-bare", vec![format!("account {cap}:Bare{m}")]),
+        n("account-ending-with-alias", vec![format!("account {cap}:Full{m}"), format!("  ; {side} detail comment {m}"), format!("  note {side} detail note"), format!("  alias {cap}Alias{m}")]),
+        n("account-ending-with-comment", vec![format!("account {cap}:Cmt{m}"), format!("  alias {cap}CmtAlias"), format!("  # {side} last detail comment {m}")]),
+        n("account-ending-with-note", vec![format!("account {cap}:Noted{m}"), format!("  note {side} last detail note {m}")]),
+        n("commodity-bare", vec![format!("commodity {up}C")]),
+        n("commodity-ending-with-format", vec![format!("commodity {up}D"), format!("  note {side} commodity note {m}"), format!("  alias {up}DA"), format!("  format 1,000.00 {up}D")]),
+        n("commodity-ending-with-comment", vec![format!("commodity {up}E"), format!("  % {side} commodity comment {m}")]),
+        n("apply-tag", vec![format!("apply tag {side}tag")]),
+        n("end-apply-tag", vec!["end apply tag".to_string()]),
+        n("transaction", vec![format!("2024/01/09 {cap} neighbour {m}"), format!("  {cap}:A{m}    3 X"), format!("  {cap}:B")]),
+        n("transaction-ending-with-comment-line", vec![format!("2024/01/10 {cap} remarked {m}"), format!("  {cap}:C    3 X"), format!("  {cap}:D"), format!("    ; {side} last remark {m}")]),
+        n("transaction-ending-with-inline-note", vec![format!("2024/01/11 {cap} noted {m}"), format!("  {cap}:E    3 X"), format!("  {cap}:F  ; {side} inline {m}")]),
+        n("transaction-header-only", vec![format!("2024/01/12 {cap} header only {m}")]),
+    ];
+    out.push(Neighbour {
+        name: "include-of-a-valid-file",
+        lines: vec![format!("include {side}inc/valid.ledger")],
+        extra: vec![(format!("{side}inc/valid.ledger"), format!("2024/01/08 Included {side}\n  Inc:{cap}A  4 X\n  Inc:{cap}B\n"))],
+    });
+    out
+}
+
+/// Adjacency family: [a valid transaction] [blank] [setup, blank] PREV? BAD NEXT? [blank] [the delimiter-rich later
+/// transaction]; no blank line between PREV / BAD / NEXT.
+fn build_neighbour_file(eol: u8, mb: u8, f: &Fault, setup_here: bool, prev: Option<&Neighbour>, next: Option<&Neighbour>) -> BadFile {
+    let m = marker(mb);
+    let mut lines: Vec<String> = prefix_lines(2, m);
+    let mut extra = vec![];
+    lines.push(String::new());
+    if setup_here && !f.setup.is_empty() {
+        lines.extend(f.setup.iter().cloned());
+        lines.push(String::new());
+    }
+    if let Some(p) = prev {
+        lines.extend(p.lines.iter().cloned());
+        extra.extend(p.extra.iter().cloned());
+    }
+    let first = lines.len() + 1;
+    lines.extend(f.lines.iter().cloned());
+    let last = lines.len();
+    if let Some(n) = next {
+        lines.extend(n.lines.iter().cloned());
+        extra.extend(n.extra.iter().cloned());
+    }
+    lines.push(String::new());
+    lines.extend(suffix_lines(1, m));
+    let eol = if eol == 0 { "\n" } else { "\r\n" };
+    let mut text = lines.join(eol);
+    text.push_str(eol);
+    BadFile { lines, text, first, last, fault: first + f.fault, final_nl: true, extra }
 }
 
 fn build_bad_file(s: &Slots, f: &Fault, setup_here: bool, incb: u8) -> BadFile {
@@ -1168,9 +1272,26 @@ fn self_check() {
         for k in 1..NINCB {
             common.push(format!("include {}", incb_files(k).0));
         }
+        for side in ["pv", "nx"] {
+            for n in neighbours(side, m) {
+                common.extend(n.lines);
+            }
+        }
         common.retain(|l| !l.is_empty());
         common.sort();
         common.dedup();
+        let clash = |a: &str, b: &str, what: &str| {
+            if a.trim_end().ends_with(b.trim_end()) {
+                panic!("harness bug: generated lines are not distinguishable: {:?} ends with {:?} ({})", a, b, what);
+            }
+        };
+        for (i, a) in common.iter().enumerate() {
+            for (j, b) in common.iter().enumerate() {
+                if i != j {
+                    clash(a, b, "shared material");
+                }
+            }
+        }
         let mut tl: Vec<Fault> = vec![];
         for f in faults(m) {
             for t in 1..NTAILS {
@@ -1178,14 +1299,17 @@ fn self_check() {
             }
         }
         for f in faults(m).into_iter().chain(long_faults(m)).chain(tl) {
-            let mut all = common.clone();
-            all.extend(f.setup.iter().cloned());
-            all.extend(f.lines.iter().cloned());
-            for (i, a) in all.iter().enumerate() {
-                for (j, b) in all.iter().enumerate() {
-                    if i != j && a.trim_end().ends_with(b.trim_end()) {
-                        panic!("harness bug: generated lines are not distinguishable: {:?} ends with {:?} (fault {})", a, b, f.name);
+            let mut own: Vec<String> = f.setup.clone();
+            own.extend(f.lines.iter().cloned());
+            for (i, a) in own.iter().enumerate() {
+                for (j, b) in own.iter().enumerate() {
+                    if i != j {
+                        clash(a, b, &f.name);
                     }
+                }
+                for b in &common {
+                    clash(a, b, &f.name);
+                    clash(b, a, &f.name);
                 }
             }
             if f.fault >= f.lines.len() {
@@ -1491,6 +1615,114 @@ fn run(ctx: &mut Ctx) {
                                 ctx.count("transitions", compared);
                                 ctx.count("cases/okane-binary", 1);
                             }
+                        }
+                    }
+                }
+            }
+        }
+    }
+
+    // ---- family 8: adjacency. The bad entry stands DIRECTLY (no blank line) before / after every kind of top-level
+    // entry of the grammar (top comment with each of the 5 comment prefixes and a mixed block, account / commodity
+    // declarations ending with each kind of detail line, apply tag, end apply tag, include, transactions ending with a
+    // posting / comment line / inline note, header-only transaction), with every kind of last line of the bad entry
+    // itself: the neighbour is another entry, none of its lines may be shown ----
+    {
+        let mbs: Vec<u8> = if thorough { (0..DOMS[S_MB]).collect() } else { vec![0] };
+        let nneigh = neighbours("nx", "").len();
+        ctx.fact("adjacency_neighbour_kinds", nneigh as u64);
+        let bin = okane_binary();
+        let quick_loc = |l: &Loc| l.kind == LocKind::Root || (l.pre == 0 && !l.setup_in_root && (l.kind == LocKind::Lit1 || l.kind == LocKind::Glob2));
+        for mb in mbs {
+            let m = marker(mb);
+            let prevs = neighbours("pv", m);
+            let nexts = neighbours("nx", m);
+            for eol in 0..2u8 {
+                let mut s: Slots = [0; NSLOTS];
+                s[S_PREFIX] = 2;
+                s[S_EOL] = eol;
+                s[S_MB] = mb;
+                for f0 in &by_mb[&mb] {
+                    // (prev, next, tail): A = every next x every last-line kind; B = every prev; C (thorough, no marker) = prev x next
+                    let mut combos: Vec<(Option<usize>, Option<usize>, u8)> = vec![];
+                    let fault_on_last_line = f0.kind == Kind::Syntax && f0.fault + 1 >= f0.lines.len();
+                    if !fault_on_last_line {
+                        for tail in 0..NTAILS {
+                            for nx in 0..nneigh {
+                                combos.push((None, Some(nx), tail));
+                            }
+                        }
+                    }
+                    for pv in 0..nneigh {
+                        combos.push((Some(pv), None, 0));
+                    }
+                    if thorough && mb == 0 && !fault_on_last_line {
+                        for pv in 0..nneigh {
+                            for nx in 0..nneigh {
+                                combos.push((Some(pv), Some(nx), 0));
+                            }
+                        }
+                    }
+                    for (pv, nx, tail) in combos {
+                        let f = match tailed(f0, tail, m) {
+                            Some(f) => f,
+                            None => continue,
+                        };
+                        let prev = pv.map(|i| &prevs[i]);
+                        let next = nx.map(|i| &nexts[i]);
+                        let what = format!(
+                            "adjacency family: directly before the entry: {}; directly after it: {} (context slots other than eol / multibyte not used)",
+                            prev.map(|p| p.name).unwrap_or("a blank line"),
+                            next.map(|n| n.name).unwrap_or("a blank line")
+                        );
+                        let product = pv.is_some() && nx.is_some();
+                        let locs: Vec<Loc> = locations(&f, false).into_iter().filter(|l| if thorough && !product { true } else { quick_loc(l) }).collect();
+                        for loc in locs {
+                            if !ctx.next_is_mine() {
+                                ctx.skip_cases(1);
+                                continue;
+                            }
+                            let bf = build_neighbour_file(eol, mb, &f, !loc.setup_in_root, prev, next);
+                            let lay = build_layout("/v", &loc, &f, &bf);
+                            let mut compared = 0u64;
+                            ctx.case(
+                                || describe(&s, &f, &loc, &lay, &bf, &format!("fake-fs; {}", what)),
+                                || {
+                                    let obs = observe_fake(&lay);
+                                    judge(&obs, &lay, &bf, &f, &loc, "fake-fs", &mut compared)
+                                },
+                            );
+                            ctx.count("transitions", compared);
+                            ctx.count(if nx.is_some() && pv.is_none() { "cases/adjacency/entry-directly-after" } else if product { "cases/adjacency/entries-on-both-sides" } else { "cases/adjacency/entry-directly-before" }, 1);
+                        }
+                        // the real binary (LF, no marker, root file): the unbalanced transaction with every neighbour on either
+                        // side, and the rejected account / commodity declarations followed by each top-comment kind
+                        let is_directive = f0.lines[0].starts_with("account ") || f0.lines[0].starts_with("commodity ");
+                        let comment_next = next.map(|n| n.name.starts_with("top-comment")).unwrap_or(false);
+                        if mb == 0 && eol == 0 && !product && (f0.name == "unbalanced" || (is_directive && f0.kind == Kind::Semantic && comment_next)) {
+                            if !ctx.next_is_mine() {
+                                ctx.skip_cases(1);
+                                continue;
+                            }
+                            let loc = Loc { kind: LocKind::Root, pre: 0, setup_in_root: false, incb: 0 };
+                            let bf = build_neighbour_file(eol, mb, &f, true, prev, next);
+                            let lay = build_layout(&format!("{}/binadj-{:?}", base, loc.kind), &loc, &f, &bf);
+                            let args: Vec<String> = vec!["balance".into(), lay.root.clone()];
+                            let mut compared = 0u64;
+                            ctx.case(
+                                || describe(&s, &f, &loc, &lay, &bf, &format!("real files, real binary (stderr), $ okane {}; {}", args.join(" "), what)).replace(&base, "<scratch>"),
+                                || {
+                                    let obs = observe_bin(&bin, &lay, &mut made, &args);
+                                    let mut o = judge(&obs, &lay, &bf, &f, &loc, "bin-balance", &mut compared);
+                                    if let crate::fw::Verdict::Violation { sig, detail } = &o.verdict {
+                                        o = Outcome::violation(sig.clone(), detail.replace(&base, "<scratch>"));
+                                    }
+                                    o
+                                },
+                            );
+                            ctx.count("transitions", compared);
+                            ctx.count("cases/okane-binary", 1);
+                            ctx.count("cases/adjacency/okane-binary", 1);
                         }
                     }
                 }
